@@ -67,7 +67,8 @@ TYPES = [
     # Segments<I>: the remaining elements and the (start, last) pair; no model record (the model folds seg_step)
     dict(rust='Segments', file=S + 'bezpath.rs', coq='(list (PathEl T) * option (Point T * Point T))%type', destruct=False,
          ctor='(fun tr_e tr_s => (tr_e, tr_s))',
-         fields=[['elements', '(fun tr_s => fst tr_s)', 'Vec<PathEl>'], ['start_last', '(fun tr_s => snd tr_s)']]),
+         fields=[['elements', '(fun tr_s => fst tr_s)', 'Vec<PathEl>'], ['start_last', '(fun tr_s => snd tr_s)']],
+         iter=['segments_next', 'PathSeg', '(S (length (fst $0)))']),
     # the SVG lexer: (data as bytes, ix, last_pt); the model works on the remaining suffix `skipn ix data`
     dict(rust='SvgParseError', file=S + 'svg.rs', coq='KV.Svg.SvgErr',
          variants=[['Wrong', 'KV.Svg.Wrong'], ['UnexpectedEof', 'KV.Svg.UnexpectedEof'], ['UnknownCommand', 'KV.Svg.UnknownCommand'], ['UninitializedPath', 'KV.Svg.UninitializedPath']]),
@@ -82,7 +83,7 @@ TYPES = [
          fields=[['translation', 'ts_translation'], ['scale', 'ts_scale']]),
 ]
 
-IMPORTS = ['Scalar', 'Geom', 'Rect', 'Curves', 'Path', 'Affine', 'ShapeTypes', 'AffineOps', 'Solvers', 'Extrema', 'Flatten', 'ToQuads', 'Nearest', 'Winding', 'ShapeQueries', 'ShapePaths', 'Arclen', 'PathOps', 'Stroke', 'Dash', 'Svg']
+IMPORTS = ['Scalar', 'Geom', 'Rect', 'Curves', 'Path', 'Area', 'Affine', 'ShapeTypes', 'AffineOps', 'Solvers', 'Extrema', 'Flatten', 'ToQuads', 'Nearest', 'Winding', 'ShapeQueries', 'ShapePaths', 'Arclen', 'PathOps', 'Stroke', 'Dash', 'Svg']
 
 FUNS = []
 
@@ -461,6 +462,26 @@ F('cubicbez.rs', 'ToQuads', 'next', 'to_quads_next', TQ + 'to_quads_piece', trai
 # ---------------------------------------------------------------- Segments::next by simulation (C07 and every path property)
 F('bezpath.rs', 'Segments<I>', 'next', 'segments_next', P + 'seg_step', trait='Iterator', bridge='Path_bridge', via='simulation',
   stmt='match KVBridge.Path_bridge.next_spec (snd $0) (fst $0) with Some tr_r => $G = tr_r | None => True end')
+# the folds over a consumed Segments: `self.map(f).sum()` / `for seg in self` = over `tr_drain next (S (length elements)) self`,
+# which is the model's segment list wherever `segments` is defined (Path_bridge.drain_segs)
+SEGS = 'match KV.Path.segs_from (snd $0) (fst $0) with Some tr_l => $G = %s | None => True end'
+F('bezpath.rs', 'PathSeg', 'arclen', 'seg_arclen', AL + 'seg_arclen', trait='ParamCurveArclen', extern=True, call='KV.Arclen.seg_arclen $0 $1')
+F('bezpath.rs', 'Segments<I>', 'area', 'segments_area', P + 'segs_area', call_gen=True, bridge='Path_bridge', via='simulation', stmt=SEGS % 'KV.Path.segs_area tr_l')
+F('bezpath.rs', 'Segments<I>', 'perimeter', 'segments_perimeter', AL + 'segs_perimeter', call_gen=True, bridge='Path_bridge', via='simulation', stmt=SEGS % 'KV.Arclen.segs_perimeter tr_l $1')
+F('bezpath.rs', 'Segments<I>', 'winding', 'segments_winding', WD + 'segs_winding_gen', call_gen=True, bridge='Path_bridge', via='simulation', stmt=SEGS % 'KV.Winding.segs_winding tr_l $1')
+F('bezpath.rs', 'Segments<I>', 'bounding_box', 'segments_bounding_box', EX + 'segs_bounding_box', call_gen=True, bridge='Path_bridge', via='simulation', stmt=SEGS % 'KV.Extrema.segs_bounding_box tr_l')
+# Shape for &[PathEl]: segments(self.iter().copied()).<fold>; against the models' path_* (None = the panic of `segments`)
+SL = "&'a[PathEl]"
+PATHS = 'match %s with Some tr_r => $G = tr_r | None => True end'
+F('bezpath.rs', None, 'segments', 'segments_fn', ret='Segments')
+F('bezpath.rs', SL, 'area', 'slice_area', 'KV.Area.path_area', trait='Shape', call_gen=True, bridge='Path_bridge', via='simulation', stmt=PATHS % 'KV.Area.path_area $0')
+F('bezpath.rs', SL, 'perimeter', 'slice_perimeter', AL + 'path_perimeter', trait='Shape', call_gen=True, bridge='Path_bridge', via='simulation', stmt=PATHS % 'KV.Arclen.path_perimeter $0 $1')
+F('bezpath.rs', SL, 'winding', 'slice_winding', WD + 'path_winding', trait='Shape', call_gen=True, bridge='Path_bridge', via='simulation', stmt=PATHS % 'KV.Winding.path_winding $0 $1')
+F('bezpath.rs', SL, 'bounding_box', 'slice_bounding_box', EX + 'path_bounding_box', trait='Shape', call_gen=True, bridge='Path_bridge', via='simulation', stmt=PATHS % 'KV.Extrema.path_bounding_box $0')
+F('bezpath.rs', 'BezPath', 'area', 'bezpath_area', 'KV.Area.path_area', trait='Shape', bridge='Path_bridge', via='simulation', stmt=PATHS % 'KV.Area.path_area $0')
+F('bezpath.rs', 'BezPath', 'perimeter', 'bezpath_perimeter', AL + 'path_perimeter', trait='Shape', bridge='Path_bridge', via='simulation', stmt=PATHS % 'KV.Arclen.path_perimeter $0 $1')
+F('bezpath.rs', 'BezPath', 'winding', 'bezpath_winding', WD + 'path_winding', trait='Shape', bridge='Path_bridge', via='simulation', stmt=PATHS % 'KV.Winding.path_winding $0 $1')
+F('bezpath.rs', 'BezPath', 'bounding_box', 'bezpath_bounding_box', EX + 'path_bounding_box', trait='Shape', bridge='Path_bridge', via='simulation', stmt=PATHS % 'KV.Extrema.path_bounding_box $0')
 F('bezpath.rs', 'BezPath', 'get_seg', 'get_seg', PO + 'get_seg_req', usize_as_nat=True, bridge='PathOps_bridge')
 F('bezpath.rs', None, 'reverse_subpath', 'reverse_subpath', PO + 'reverse_subpath', usize_as_nat=True, bridge='PathOps_bridge', via='simulation',
   stmt='match KV.PathOps.reverse_subpath $0 $1 $2 with Some tr_r => $G = tr_r | None => True end',
